@@ -340,13 +340,31 @@ func c05LoadRaises(p *Prog, r *Report) {
 	}
 	body := p.NewFlat(fi.Pkg, pubLoop.Body)
 	fileObj := objOf(info, pubLoop.Value)
+	mainId, _ := constValOfKeyStr(p, "internal/model.MainTxId")
+	// the maximum may be accumulated where the records are sorted: kept, dropped, maxSeq := split(records); the
+	// loop evaluated is then the helper's, for a record that is kept (first main record of its key)
+	if len(assignedObjsOf(info, pubLoop.Body, arg)) == 0 {
+		var recordsObj types.Object
+		for _, s := range f.CallSites(kFileGetAllRepo) {
+			if as, ok := f.Nodes[s.Node].Ast.(*ast.AssignStmt); ok && len(as.Lhs) == 2 {
+				recordsObj = objOf(info, as.Lhs[0])
+			}
+		}
+		if sp := c04SplitHelper(p, fi, recordsObj); sp != nil && sp.results[arg] != nil {
+			arg = sp.results[arg]
+			body = p.NewFlat(fi.Pkg, sp.loop.Body)
+			fileObj = objOf(info, sp.loop.Value)
+			pubLoop = sp.loop
+		}
+	}
 	good := true
 	detail := ""
 	for _, cs := range [][3]int64{{3, 5, 5}, {5, 3, 5}, {1, 7, 7}} {
 		env := &Env{P: p, Pkg: fi.Pkg, Vars: map[types.Object]*Val{arg: intVal(cs[0])}}
+		env.MapOk = func(_ *Env, _ *ast.IndexExpr) (*Val, bool, bool) { return nil, false, true }
 		env.Hook = func(env *Env, e ast.Expr) (*Val, bool) {
 			if id, ok := e.(*ast.Ident); ok && env.Pkg == fi.Pkg && objOf(info, id) == fileObj {
-				return &Val{Fields: map[string]*Val{"Seq": intVal(cs[1]), "Key": strVal("k")}}, true
+				return &Val{Fields: map[string]*Val{"Seq": intVal(cs[1]), "Key": strVal("k"), "TxId": strVal(mainId)}}, true
 			}
 			if c, ok := e.(*ast.CallExpr); ok && env.Pkg == fi.Pkg && p.callIs(fi.Pkg, c, kStoreToTx) {
 				return intVal(0), true
@@ -386,4 +404,15 @@ func c05CloseOrder(p *Prog, r *Report) {
 		}
 		r.Check(ok, "C05.d", k+"#pool-before-badger", p.pos(fi.Decl), "Pool().Stop() precedes Badger().Close()", "Badger is closed before the worker pool has stopped: background deletions still running fail or are lost")
 	}
+}
+
+// assignedObjsOf: the assignments to o inside n.
+func assignedObjsOf(info *types.Info, n ast.Node, o types.Object) []types.Object {
+	var res []types.Object
+	for _, a := range assignedObjs(info, n) {
+		if a == o {
+			res = append(res, a)
+		}
+	}
+	return res
 }
